@@ -1,4 +1,4 @@
 from .core import (Explorer, ConcreteRun, HarnessError, Inconclusive, PathAbort, cur, active)  # noqa
 from .proxies import *  # noqa
-from .proxies import mathshim, float_shim, int_shim, isinstance_shim  # noqa
+from .proxies import mathshim, float_shim, int_shim, isinstance_shim, FloatType, IntType  # noqa
 from .runner import Obligation  # noqa
